@@ -40,6 +40,15 @@ class Undecided(Exception):
         return 'UNDECIDED: %s%s' % (self.what, (' at ' + self.where) if self.where else '')
 
 
+class NeedFrame(Exception):
+    """Evaluating an operand needs a body to be run first (a promoted constant whose initialiser calls a const fn):
+    the frame is pushed, and the interrupted statement / terminator is re-executed when it returns."""
+
+    def __init__(self, fn, body, store_key):
+        Exception.__init__(self, 'need frame')
+        self.fn, self.body, self.store_key = fn, body, store_key
+
+
 class NeedSplit(Exception):
     """An array index (or similar) is not yet a constant: the state must be split on it first."""
 
@@ -219,6 +228,7 @@ def term_str(v):
 SHIM_MAP = {
     # library function (generic def path) -> safe stand-in in /verif/shims/src/lib.rs
     'core::slice::<impl [T]>::iter': 'slice_iter',
+    "core::slice::Iter::<'a, T>::new": 'slice_iter',
     "<core::slice::Iter<'a, T> as core::iter::Iterator>::next": 'iter_next',
     "<core::slice::Iter<'a, T> as core::iter::Iterator>::find": 'iter_find',
     "<core::slice::Iter<'a, T> as core::iter::Iterator>::find_map": 'iter_find_map',
@@ -759,7 +769,10 @@ class Engine:
             if t['k'] == 'goto':
                 bb = t['t']
                 continue
-            raise Undecided('promoted constant with terminator ' + t['k'], t.get('sp'))
+            # not straight-line (e.g. `&RangeInclusive::new(..)`): run it as a proper frame
+            for c in [c for c in st.store if c[0] == 'L' and c[1] == pf.uid]:
+                del st.store[c]
+            raise NeedFrame(fr.fn, body, key)
         raise Undecided('promoted constant does not terminate')
 
     def operand(self, o, st, fr):
@@ -1030,6 +1043,10 @@ class Engine:
             while fr.pc < len(stmts):   # a re-executed statement/terminator (after a fork) must not redo earlier ones
                 try:
                     self.exec_stmt(stmts[fr.pc], st, fr)
+                except NeedFrame as nf_:
+                    self.push_aux_frame(nf_, st, fr)
+                    resplit = 'frame'
+                    break
                 except NeedSplit as ns:
                     parts = self.split(st, ns.value, stmts[fr.pc].get('sp'))
                     if len(parts) == 1 and parts[0][1] is st:
@@ -1040,6 +1057,8 @@ class Engine:
                     resplit = True
                     break
                 fr.pc += 1
+            if resplit == 'frame':
+                continue
             if resplit:
                 return
             t = blk['term']
@@ -1047,6 +1066,25 @@ class Engine:
             st.steps += 1
             if st.steps > self.max_steps:
                 raise Undecided('step budget exhausted (loop?)', t.get('sp'))
+            try:
+                r_ = self.exec_term(t, k, st, fr, work, leaves)
+            except NeedFrame as nf_:
+                self.push_aux_frame(nf_, st, fr)
+                continue
+            if r_ == 'return':
+                return
+
+    def push_aux_frame(self, nf_, st, fr):
+        if fr.depth + 1 > self.max_depth:
+            raise Undecided('call depth bound exceeded (promoted constant)')
+        af = Frame()
+        af.uid = st.next_uid; st.next_uid += 1
+        af.fn = nf_.fn; af.body = nf_.body; af.bb = 0; af.pc = 0; af.sub = 0
+        af.dest = None; af.ret_to = ('store', nf_.store_key); af.depth = fr.depth + 1
+        st.frames.append(af)
+
+    def exec_term(self, t, k, st, fr, work, leaves):
+        if True:
             if k == 'goto':
                 fr.goto(t['t'])
             elif k == 'switch':
@@ -1073,7 +1111,7 @@ class Engine:
                     if s2 is not st:
                         work.append(s2)
                 if not any(s2 is st for _, s2 in succ):
-                    return
+                    return 'return'
             elif k == 'assert':
                 v = self.operand(t['cond'], st, fr)
                 parts = self.split(st, v, t['sp'])
@@ -1090,11 +1128,11 @@ class Engine:
                     if s2 is not st:
                         work.append(s2)
                 if not any(s2 is st for s2 in oks):
-                    return
+                    return 'return'
             elif k == 'return':
                 if len(st.frames) == 1:
                     self.finish(st, 'return', leaves)
-                    return
+                    return 'return'
                 rv = st.store.get(('L', fr.uid, 0))
                 st.frames.pop()
                 caller = st.frames[-1]
@@ -1103,14 +1141,16 @@ class Engine:
                     del st.store[c]
                 if rv is None:
                     rv = ('adt', '(tuple)', 0, ())
-                if fr.ret_to == 'resume-terminator':
+                if isinstance(fr.ret_to, tuple) and fr.ret_to[0] == 'store':
+                    st.store[fr.ret_to[1]] = rv     # value of a promoted constant; the interrupted step is re-executed
+                elif fr.ret_to == 'resume-terminator':
                     caller.sub += 1       # next step of the caller's multi-step terminator (drop glue)
                 else:
                     self.storev(fr.dest, rv, st, caller, None)
                     caller.goto(fr.ret_to)
             elif k == 'unreachable':
                 self.finish(st, 'unreachable', leaves, panic=('unreachable', 'unreachable terminator reached', t['sp'], fr.fn['path']))
-                return
+                return 'return'
             elif k == 'drop':
                 v = None
                 try:
@@ -1136,13 +1176,13 @@ class Engine:
                     st.store[('L', nf.uid, 1)] = ('ref', cell, path)
                     st.frames.append(nf)
                     st.events.append(('drop-impl', impl_fn, t['sp'], fr.fn['path']))
-                    continue
+                    return None
                 st.events.append(('drop', term_str(v) if v else '?', t['sp'], fr.fn['path']))
                 fr.goto(t['t'])
             elif k == 'call':
                 r = self.do_call(t, st, fr, work, leaves)
                 if r == 'stop':
-                    return
+                    return 'return'
             elif k == 'resume':
                 raise Undecided('unwind path executed', t['sp'])
             else:
@@ -1319,7 +1359,16 @@ class Engine:
                 v = v[1] if v[0] == 'dyn' else self.get_path(st.store.get(v[1]), v[2], st)
                 hops += 1
             if v is not None and v[0] == 'adt' and v[1] in prog.adts and prog.adts[v[1]].get('local'):
-                impl_fn = prog.find_impl_method(fn.get('trait'), {'k': 'adt', 'path': v[1], 'local': True, 'args': []}, fn.get('method'))
+                # Self is the receiver's type *as the method takes it*: `self` by value with a reference argument means
+                # Self = &T (or &&T ...), `&self` with one level of reference means Self = T
+                sk = fn.get('self_kind')
+                level = hops - (1 if sk in ('ref', 'refmut') else 0)
+                if sk not in ('value', 'ref', 'refmut') or level < 0:
+                    raise Undecided('cannot tell the Self type of the unresolved call %s' % fn['path_inst'], sp)
+                self_ty = {'k': 'adt', 'path': v[1], 'local': True, 'args': []}
+                for _ in range(level):
+                    self_ty = {'k': 'ref', 'mut': False, 'to': self_ty}
+                impl_fn = prog.find_impl_method(fn.get('trait'), self_ty, fn.get('method'))
                 if impl_fn is not None and impl_fn in prog.fns:
                     nfn = {'path': impl_fn, 'path_inst': impl_fn, 'trait': None,
                            'resolved': {'path': impl_fn, 'path_inst': impl_fn, 'local': True, 'kind': 'item'}}
